@@ -173,3 +173,36 @@ package inference
 //@ ensures open-edge-is-stored (=> (old (and (<= (det e.inferredMap producerSite) 1) (<= (det e.inferredMap consumerSite) 1)))
 //@    (and (= (calls "StoreImplication") 1) (= (calls "observeSiteExplanation") 0)
 //@         (= (callarg "StoreImplication" 0 1) producerSite) (= (callarg "StoreImplication" 0 2) consumerSite) (= (callarg "StoreImplication" 0 3) assertion)))
+
+//@ -- Snapshots (C06, C03): copies of inferred values share no mutable structure with the original.
+//@ method InferredVal copy dispatch
+
+//@ func (*DeterminedVal).copy
+//@ prop C06 C03
+//@ requires (not (= e nil))
+//@ ensures fresh-copy (and (is result *DeterminedVal) (fresh (as result *DeterminedVal)) (= (. (as result *DeterminedVal) Bool) e.Bool))
+
+//@ func (*UndeterminedVal).copy
+//@ prop C06 C03
+//@ requires (and (not (= e nil)) (omInv e.Implicants) (omInv e.Implicates))
+//@ modifies (obj e.Implicates) (map e.Implicates.inner) (elems e.Implicates.Pairs) (obj (omPair e.Implicates 0))
+//@ ensures fresh-copy (and (is result *UndeterminedVal) (fresh (undet result)) (not (= (undet result) nil))
+//@    (fresh (. (undet result) Implicates)) (fresh (. (undet result) Implicants))
+//@    (not (= (. (undet result) Implicates) nil)) (not (= (. (undet result) Implicants) nil))
+//@    (not (= (. (undet result) Implicates) (. (undet result) Implicants))))
+
+//@ -- the closure that takes the upstream snapshot at the end of ObserveUpstream
+//@ func (*Engine).ObserveUpstream$3
+//@ prop C06 C03 C05
+//@ requires (and (not (= e nil)) (not (= e.inferredMap nil)) (not (= e.inferredMap.upstreamMapping nil)) (valOK val))
+//@ modifies (map e.inferredMap.upstreamMapping) (obj (implOf e.inferredMap)) (map (. (implOf e.inferredMap) inner)) (elems (. (implOf e.inferredMap) Pairs)) (obj (omPair (implOf e.inferredMap) 0))
+//@ ensures continues (= result true)
+//@ ensures snapshot-stored (mapin e.inferredMap.upstreamMapping site)
+//@ ensures snapshot-is-not-an-alias (let ((u (mapget e.inferredMap.upstreamMapping site)))
+//@    (and (= (isDet u) (isDet val)) (= (isUndet u) (isUndet val))
+//@         (=> (isDet val) (and (fresh (as u *DeterminedVal)) (= (detBool u) (detBool val))))
+//@         (=> (isUndet val) (and (fresh (undet u)) (fresh (. (undet u) Implicates)) (fresh (. (undet u) Implicants))))))
+
+//@ func (*UndeterminedVal).copy$1
+//@ inline
+//@ loop 0 invariant out-ok (and (omOK out) (fresh out))
